@@ -759,7 +759,7 @@ PROPS = {
     "C18": {
         "props_file": "props/C18.v",
         "flows": [(gen_pc.gen, "c01", 40, 400), (gen_pc.gen, "c19", 24, 240), (gen_c15.gen_setup, "c09", 8, 60), (gen_c14.gen, "c14", 8, 80),
-                  (gen_c08.gen, "c08", 16, 160)],
+                  (gen_c08.gen, "c08", 16, 160), (gen_pc.gen, "c18big", 8, 24)],
         "oracles": [pc_honest],
         "configs": [("RAYON_NUM_THREADS=1", True, 1), ("RAYON_NUM_THREADS=2", True, 2), ("RAYON_NUM_THREADS=3", True, 3),
                     ("RAYON_NUM_THREADS=8", True, 8), ("RAYON_NUM_THREADS=16", True, 16), ("build without the parallel feature", False, None),
